@@ -1,36 +1,64 @@
 /* C13: uv_signal_t of the freshly built libuv driven by scripts, with real
- * signals (raise) and the real kernel dispositions (sigaction).
+ * signals and the real kernel dispositions (sigaction), one pthread per loop.
  * Case (one line):  <cap> ; op op ... ; beh0 | beh1 | ...      (see ocaml/drv_c13.ml)
  *   I<l> uv_signal_init on loop l      S<h>,<sig> uv_signal_start
  *   O<h>,<sig> uv_signal_start_oneshot T<h> uv_signal_stop   C<h> uv_close
- *   K<sig> raise(sig) unless the disposition is not a handler  R<l> uv_run(NOWAIT)
+ *   R<l> uv_run(loop l, UV_RUN_NOWAIT)
+ *   K<sig>[,<t>[,<m>]] deliver sig to thread t (0..NLOOPS-1 = the loop threads, NLOOPS = the
+ *       script thread; default: the thread executing the script) unless the disposition is not
+ *       a handler; m = 0: raise() executed on t, m = 1: pthread_kill(t) from the current thread
  * beh k = what the k-th signal callback of the case does.
- * Every case runs in a forked child (signal state is process-wide); a child that
- * dies prints "crash <status>".  Handles and loops live in static arrays so that
- * their address order is their index order (uv__signal_compare sorts by address). */
+ *
+ * Threads: every loop is created, used and run on its own pthread.  The loop threads park on a
+ * semaphore; the script thread (main) posts one command at a time and waits for it, so exactly one
+ * thread runs at any moment (the script is the schedule).  uv_signal_init/start/stop/close of a
+ * handle are executed on the thread of the handle's loop, also when the script of a callback
+ * running on another loop's thread asks for them.  Every callback records whether it runs on the
+ * thread of its handle's loop ("W" appended to the token when it does not).
+ *
+ * Every case runs in a forked child (signal state is process-wide); a child that dies prints
+ * "crash <status>".  Handles and loops live in static arrays so that their address order is
+ * their index order (uv__signal_compare sorts by address). */
 #include <stdio.h>
 #include <stdlib.h>
 #include <string.h>
 #include <signal.h>
 #include <unistd.h>
 #include <fcntl.h>
+#include <errno.h>
+#include <pthread.h>
+#include <semaphore.h>
 #include <sys/wait.h>
 #include "uv.h"
 
 #define MAXH 8
-#define NLOOPS 2
+#define NLOOPS 3
 #define MAXB 512
 
+enum { C_INITLOOP, C_TOKEN, C_NOP, C_QUIT };
+
+typedef struct {
+  pthread_t tid;
+  sem_t go, done;
+  int idx, cmd, ret;
+  char* tok;
+} worker_t;
+
+static worker_t wk[NLOOPS];
+static pthread_t main_tid;
+static int nloops, cap;
 static uv_loop_t loops[NLOOPS];
 static uv_prepare_t keep[NLOOPS];
 static uv_signal_t hs[MAXH];
-static int nh, closing[MAXH];
+static int nh, closing[MAXH], hloop[MAXH];
 static char* beh[MAXB];
 static int nbeh, cb_cnt, in_cb;
 static const int wsigs[4] = { SIGHUP, SIGUSR1, SIGUSR2, SIGWINCH };
 static void (*seen_handler)(int);
 
 static void do_ops(char* ops);
+
+static void sem_wait_eintr(sem_t* s) { while (sem_wait(s) < 0 && errno == EINTR) ; }
 
 static char disp_char(int sig) {
   struct sigaction sa;
@@ -53,14 +81,19 @@ static void snap(void) {
   printf("] ");
 }
 
+static int on_loop_thread(int l) { return l >= 0 && l < nloops && pthread_equal(pthread_self(), wk[l].tid); }
+
 static void prep_cb(uv_prepare_t* p) { (void) p; }
 
-static void close_cb(uv_handle_t* h) { printf("z%d ", (int) ((uv_signal_t*) h - hs)); }
+static void close_cb(uv_handle_t* h) {
+  int i = (int) ((uv_signal_t*) h - hs);
+  printf("z%d%s ", i, on_loop_thread(hloop[i]) ? "" : "W");
+}
 
 static void signal_cb(uv_signal_t* h, int signum) {
   int i = (int) (h - hs);
   int k = cb_cnt++;
-  printf("c%d,%d ", i, signum);
+  printf("c%d,%d%s ", i, signum, on_loop_thread(hloop[i]) ? "" : "W");
   snap();
   in_cb++;
   if (k < nbeh) { char* copy = strdup(beh[k]); do_ops(copy); free(copy); }
@@ -70,60 +103,151 @@ static void signal_cb(uv_signal_t* h, int signum) {
 
 static int legal(int h) { return h >= 0 && h < nh && !closing[h]; }
 
+/* run a command on loop thread l (directly when we are that thread) */
+static void exec_on(int l, int cmd, char* tok);
+
+/* the thread a token has to be executed on: -1 = the current one */
+static int token_thread(const char* tok) {
+  int a = 0, b = 0, c = 0;
+  int n = sscanf(tok + 1, "%d,%d,%d", &a, &b, &c);
+  switch (tok[0]) {
+  case 'I': case 'R':
+    return (n >= 1 && a >= 0 && a < nloops) ? a : -1;
+  case 'S': case 'O': case 'T': case 'C':
+    return (n >= 1 && a >= 0 && a < nh) ? hloop[a] : -1;
+  case 'K':
+    if (n >= 3 && c == 1) return -1;                   /* pthread_kill: sent from the current thread */
+    return (n >= 2 && b >= 0 && b < nloops) ? b : -1;  /* raise() on the scripted thread */
+  }
+  return -1;
+}
+
+/* one operation, on the thread it belongs to */
+static void do_token(char* tok) {
+  int a = 0, b = 0, c = 0;
+  int n = sscanf(tok + 1, "%d,%d,%d", &a, &b, &c);
+  switch (tok[0]) {
+  case 'I':
+    if (n >= 1 && a >= 0 && a < nloops && nh < MAXH) {
+      hloop[nh] = a; uv_signal_init(&loops[a], &hs[nh]); nh++; printf("i ");
+    } else printf("x ");
+    break;
+  case 'S':
+    if (n >= 2 && legal(a)) printf("r%d ", uv_signal_start(&hs[a], signal_cb, b)); else printf("x ");
+    break;
+  case 'O':
+    if (n >= 2 && legal(a)) printf("r%d ", uv_signal_start_oneshot(&hs[a], signal_cb, b)); else printf("x ");
+    break;
+  case 'T':
+    if (n >= 1 && legal(a)) printf("r%d ", uv_signal_stop(&hs[a])); else printf("x ");
+    break;
+  case 'C':
+    if (n >= 1 && legal(a)) { closing[a] = 1; uv_close((uv_handle_t*) &hs[a], close_cb); printf("k "); }
+    else printf("x ");
+    break;
+  case 'K':
+    if (n >= 1 && a > 0 && a < 65) {
+      char ch = disp_char(a);
+      if (ch == 'H' || ch == 'R') {
+        if (n >= 3 && c == 1) {
+          /* pthread_kill to a parked loop thread (or to ourselves / the script thread when that is us);
+           * the round trip afterwards makes sure the handler has run before the script goes on */
+          if (b >= 0 && b < nloops && !pthread_equal(pthread_self(), wk[b].tid)) {
+            pthread_kill(wk[b].tid, a);
+            exec_on(b, C_NOP, NULL);
+          } else pthread_kill(pthread_self(), a);
+        } else raise(a);
+        printf("d0 ");
+      } else printf("d1 ");                      /* default action: the process would die */
+    } else printf("x ");
+    break;
+  case 'R':
+    if (n >= 1 && a >= 0 && a < nloops && !in_cb) {
+      printf("(%d ", a);
+      uv_run(&loops[a], UV_RUN_NOWAIT);
+      printf(")%d ", a);
+    } else printf("x ");
+    break;
+  default:
+    printf("x ");
+  }
+}
+
 static void do_ops(char* ops) {
   char* save = NULL;
   char* tok;
   for (tok = strtok_r(ops, " \n", &save); tok; tok = strtok_r(NULL, " \n", &save)) {
-    int a = 0, b = 0;
-    int n = sscanf(tok + 1, "%d,%d", &a, &b);
-    switch (tok[0]) {
-    case 'I':
-      if (n >= 1 && a >= 0 && a < NLOOPS && nh < MAXH) {
-        uv_signal_init(&loops[a], &hs[nh]); nh++; printf("i ");
-      } else printf("x ");
-      break;
-    case 'S':
-      if (n == 2 && legal(a)) printf("r%d ", uv_signal_start(&hs[a], signal_cb, b)); else printf("x ");
-      break;
-    case 'O':
-      if (n == 2 && legal(a)) printf("r%d ", uv_signal_start_oneshot(&hs[a], signal_cb, b)); else printf("x ");
-      break;
-    case 'T':
-      if (n >= 1 && legal(a)) printf("r%d ", uv_signal_stop(&hs[a])); else printf("x ");
-      break;
-    case 'C':
-      if (n >= 1 && legal(a)) { closing[a] = 1; uv_close((uv_handle_t*) &hs[a], close_cb); printf("k "); }
-      else printf("x ");
-      break;
-    case 'K':
-      if (n >= 1 && a > 0 && a < 65) {
-        char c = disp_char(a);
-        if (c == 'H' || c == 'R') { raise(a); printf("d0 "); }
-        else printf("d1 ");                      /* default action: the process would die */
-      } else printf("x ");
-      break;
-    case 'R':
-      if (n >= 1 && a >= 0 && a < NLOOPS && !in_cb) {
-        printf("(%d ", a);
-        uv_run(&loops[a], UV_RUN_NOWAIT);
-        printf(")%d ", a);
-      } else printf("x ");
-      break;
-    default:
-      printf("x ");
-    }
+    int t = token_thread(tok);
+    if (tok[0] == 'R' && in_cb) t = -1;            /* nested run: refused where we are */
+    if (t < 0) do_token(tok); else exec_on(t, C_TOKEN, tok);
     snap();
   }
 }
 
+static void run_cmd(worker_t* w) {
+  int l = w->idx;
+  switch (w->cmd) {
+  case C_INITLOOP:
+    w->ret = 0;
+    if (uv_loop_init(&loops[l])) { w->ret = 1; break; }
+    /* the self-pipe exists from uv_loop_init on (child watcher); give it the capacity of the case */
+    if (loops[l].signal_pipefd[1] < 0) { w->ret = 2; break; }
+    if (fcntl(loops[l].signal_pipefd[1], F_SETPIPE_SZ, cap * 16) < 0 ||
+        fcntl(loops[l].signal_pipefd[1], F_GETPIPE_SZ) != cap * 16) { w->ret = 3; break; }
+    uv_prepare_init(&loops[l], &keep[l]);
+    uv_prepare_start(&keep[l], prep_cb);          /* keeps uv_run from returning early */
+    break;
+  case C_TOKEN:
+    do_token(w->tok);
+    break;
+  case C_NOP:
+    break;
+  }
+}
+
+static void* worker_main(void* arg) {
+  worker_t* w = arg;
+  for (;;) {
+    sem_wait_eintr(&w->go);                        /* parked */
+    if (w->cmd == C_QUIT) break;
+    run_cmd(w);
+    sem_post(&w->done);
+  }
+  return NULL;
+}
+
+static void exec_on(int l, int cmd, char* tok) {
+  worker_t* w = &wk[l];
+  if (pthread_equal(pthread_self(), w->tid)) {
+    worker_t tmp = *w;
+    tmp.cmd = cmd; tmp.tok = tok;
+    run_cmd(&tmp);
+    w->ret = tmp.ret;
+    return;
+  }
+  w->cmd = cmd; w->tok = tok;
+  sem_post(&w->go);
+  sem_wait_eintr(&w->done);
+}
+
+static int max_loop(const char* s) {
+  int m = 0;
+  for (; *s; s++)
+    if ((*s == 'I' || *s == 'R') && s[1] >= '0' && s[1] <= '9') { int v = atoi(s + 1); if (v > m) m = v; }
+  return m;
+}
+
 static void run_case(char* line) {
   char *p1, *p2, *s;
-  int l, cap;
+  int l;
   p1 = strchr(line, ';'); if (!p1) { printf("badcase\n"); return; }
   *p1++ = 0;
   p2 = strchr(p1, ';'); if (!p2) { printf("badcase\n"); return; }
   *p2++ = 0;
   cap = atoi(line);
+  nloops = max_loop(p1); l = max_loop(p2); if (l > nloops) nloops = l;
+  nloops++;
+  if (nloops > NLOOPS) nloops = NLOOPS;
   for (s = p2; *s; s++) if (*s == '\n') *s = 0;
   for (s = p2;;) {
     char* e = strchr(s, '|');
@@ -132,14 +256,13 @@ static void run_case(char* line) {
     if (!e) break;
     s = e + 1;
   }
-  for (l = 0; l < NLOOPS; l++) {
-    if (uv_loop_init(&loops[l])) { printf("envfail loop_init\n"); return; }
-    /* the self-pipe exists from uv_loop_init on (child watcher); give it the capacity of the case */
-    if (loops[l].signal_pipefd[1] < 0) { printf("envfail nopipe\n"); return; }
-    if (fcntl(loops[l].signal_pipefd[1], F_SETPIPE_SZ, cap * 16) < 0 ||
-        fcntl(loops[l].signal_pipefd[1], F_GETPIPE_SZ) != cap * 16) { printf("envfail pipesz\n"); return; }
-    uv_prepare_init(&loops[l], &keep[l]);
-    uv_prepare_start(&keep[l], prep_cb);          /* keeps uv_run from returning early */
+  main_tid = pthread_self();
+  for (l = 0; l < nloops; l++) {
+    wk[l].idx = l;
+    sem_init(&wk[l].go, 0, 0); sem_init(&wk[l].done, 0, 0);
+    if (pthread_create(&wk[l].tid, NULL, worker_main, &wk[l])) { printf("envfail thread\n"); return; }
+    exec_on(l, C_INITLOOP, NULL);
+    if (wk[l].ret) { printf("envfail loop_init %d\n", wk[l].ret); return; }
   }
   do_ops(p1);
   printf("\n");
